@@ -26,3 +26,7 @@ func Pick(point string, n int) int { return -1 }
 
 // Expired lets the simulated scheduler declare a deadline as expired early.
 func Expired(point string) bool { return false }
+
+// PreferDone lets the simulated scheduler resolve a select in which both
+// ctx.Done() and another case are ready. Without the tag it returns false.
+func PreferDone(ctx context.Context) bool { return false }
